@@ -18,13 +18,16 @@ package main
 import (
 	"fmt"
 	"go/ast"
-	"go/parser"
 	"go/token"
+	"go/types"
 	"os"
 	"path/filepath"
 	"regexp"
 	"sort"
 	"strings"
+
+	"golang.org/x/tools/go/packages"
+	"golang.org/x/tools/go/types/typeutil"
 )
 
 type lockSpec struct {
@@ -33,19 +36,18 @@ type lockSpec struct {
 }
 
 type lfunc struct {
-	pkg  string
+	pkg  string // directory relative to the repo root
 	name string // Recv.Name or Name
 	decl *ast.FuncDecl
-	file *ast.File
+	info *types.Info
+	obj  *types.Func
+	base string // unique Gallina base name
 }
 
 type lctx struct {
-	funcs   map[string]*lfunc // key: pkgdir + "::" + name
-	byName  map[string][]*lfunc
-	globals map[string]map[string]bool // pkgdir -> package-level var names
-	imports map[*ast.File]map[string]string
-	pkgPath map[string]string // import path suffix -> pkgdir
-	objs    map[string]int    // lock / channel name -> id
+	byObj   map[*types.Func]*lfunc
+	list    []*lfunc
+	objs    map[string]int // lock / channel name -> id
 	objList []string
 	cut     int
 }
@@ -80,28 +82,94 @@ func exprText(e ast.Expr) string {
 	return "?"
 }
 
-// name of the lock / channel object denoted by e inside function f
-func (c *lctx) objName(f *lfunc, e ast.Expr) string {
-	t := exprText(e)
-	parts := strings.Split(t, ".")
-	root := parts[0]
-	if len(parts) == 1 {
-		if c.globals[f.pkg][root] {
-			return f.pkg[strings.LastIndex(f.pkg, "/")+1:] + "." + root
+func shortType(t types.Type) string {
+	for {
+		p, ok := t.(*types.Pointer)
+		if !ok {
+			break
 		}
-		return "*" // a local mutex / channel
+		t = p.Elem()
 	}
-	if imp, ok := c.imports[f.file][root]; ok && len(parts) == 2 {
-		// pkg.Global
-		for suf, dir := range c.pkgPath {
-			if strings.HasSuffix(imp, suf) {
-				return dir[strings.LastIndex(dir, "/")+1:] + "." + parts[1]
+	if n, ok := t.(*types.Named); ok {
+		if n.Obj().Pkg() != nil {
+			return n.Obj().Pkg().Name() + "." + n.Obj().Name()
+		}
+		return n.Obj().Name()
+	}
+	return types.TypeString(t, func(p *types.Package) string { return p.Name() })
+}
+
+// name of the lock / channel object denoted by e inside function f: a package-level variable is "pkg.name", a struct
+// field is "pkg.Type.field" (whichever instance it belongs to), a local variable or parameter is "<function>:name"
+func (c *lctx) objName(f *lfunc, e ast.Expr) string {
+	for {
+		switch x := e.(type) {
+		case *ast.ParenExpr:
+			e = x.X
+			continue
+		case *ast.StarExpr:
+			e = x.X
+			continue
+		case *ast.UnaryExpr:
+			if x.Op == token.AND {
+				e = x.X
+				continue
 			}
 		}
-		return imp[strings.LastIndex(imp, "/")+1:] + "." + parts[1]
+		break
 	}
-	// a field, however it is reached (receiver, local, package-level object): named by the field alone
-	return "*." + parts[len(parts)-1]
+	switch x := e.(type) {
+	case *ast.Ident:
+		if o, ok := f.info.Uses[x].(*types.Var); ok {
+			if o.Pkg() != nil && o.Parent() == o.Pkg().Scope() {
+				return o.Pkg().Name() + "." + o.Name()
+			}
+			return f.name + ":" + o.Name()
+		}
+		return f.name + ":" + x.Name
+	case *ast.SelectorExpr:
+		if sel, ok := f.info.Selections[x]; ok && sel.Kind() == types.FieldVal {
+			return shortType(sel.Recv()) + "." + x.Sel.Name
+		}
+		if o, ok := f.info.Uses[x.Sel].(*types.Var); ok && o.Pkg() != nil { // pkg.Global
+			return o.Pkg().Name() + "." + o.Name()
+		}
+		return "?." + x.Sel.Name
+	case *ast.IndexExpr:
+		return c.objName(f, x.X) + "[]"
+	case *ast.CallExpr:
+		return exprText(x.Fun) + "()"
+	}
+	return "?"
+}
+
+// the sync.Mutex / sync.RWMutex operation a call performs, with the expression denoting the mutex
+func (c *lctx) lockOp(f *lfunc, call *ast.CallExpr) (kind string, mu ast.Expr, embeddedIn string, ok bool) {
+	sel, isSel := call.Fun.(*ast.SelectorExpr)
+	if !isSel || len(call.Args) != 0 {
+		return "", nil, "", false
+	}
+	s, has := f.info.Selections[sel]
+	if !has || s.Kind() != types.MethodVal {
+		return "", nil, "", false
+	}
+	fn, isFn := s.Obj().(*types.Func)
+	if !isFn || fn.Pkg() == nil || fn.Pkg().Path() != "sync" {
+		return "", nil, "", false
+	}
+	k, known := lockMethods[fn.Name()]
+	if !known {
+		return "", nil, "", false
+	}
+	recv := fn.Type().(*types.Signature).Recv().Type()
+	rt := shortType(recv)
+	if rt != "sync.Mutex" && rt != "sync.RWMutex" {
+		return "", nil, "", false
+	}
+	if len(s.Index()) > 1 { // promoted through an embedded mutex: x.Lock() with x embedding sync.Mutex
+		return k, sel.X, rt, true
+	}
+	return k, sel.X, "", true
 }
 
 var lockMethods = map[string]string{"Lock": "KLock", "RLock": "KRLock", "Unlock": "KUnlock", "RUnlock": "KRUnlock"}
@@ -180,44 +248,28 @@ func (c *lctx) exprEv(st *fstate, e ast.Expr) string {
 	return out
 }
 
+// the function of the listed packages that a call statically denotes (function, concrete method); calls through
+// interfaces and function values are not followed
 func (c *lctx) resolve(st *fstate, call *ast.CallExpr) *lfunc {
-	switch fn := call.Fun.(type) {
-	case *ast.Ident:
-		if f, ok := c.funcs[st.f.pkg+"::"+fn.Name]; ok {
-			return f
-		}
-	case *ast.SelectorExpr:
-		if id, ok := fn.X.(*ast.Ident); ok {
-			if imp, ok := c.imports[st.f.file][id.Name]; ok {
-				for suf, dir := range c.pkgPath {
-					if strings.HasSuffix(imp, suf) {
-						if f, ok := c.funcs[dir+"::"+fn.Sel.Name]; ok {
-							return f
-						}
-					}
-				}
-				return nil
-			}
-		}
-		// a method: resolved by name when exactly one method of the listed packages has it
-		var cands []*lfunc
-		for _, f := range c.byName[fn.Sel.Name] {
-			if f.decl.Recv != nil {
-				cands = append(cands, f)
-			}
-		}
-		if len(cands) == 1 {
-			return cands[0]
-		}
+	fn := typeutil.StaticCallee(st.f.info, call)
+	if fn == nil {
+		return nil
 	}
-	return nil
+	if o := fn.Origin(); o != nil {
+		fn = o
+	}
+	return c.byObj[fn]
 }
 
 func (c *lctx) callEv(st *fstate, call *ast.CallExpr) string {
-	if sel, ok := call.Fun.(*ast.SelectorExpr); ok {
-		if k, ok := lockMethods[sel.Sel.Name]; ok && len(call.Args) == 0 {
-			return fmt.Sprintf("(SEv %s %d)", k, c.obj(c.objName(st.f, sel.X)))
+	if k, mu, emb, ok := c.lockOp(st.f, call); ok {
+		n := c.objName(st.f, mu)
+		if emb != "" {
+			if tv, ok := st.f.info.Types[mu]; ok {
+				n = shortType(tv.Type) + ".(" + emb + ")"
+			}
 		}
+		return fmt.Sprintf("(SEv %s %d)", k, c.obj(n))
 	}
 	if lit, ok := call.Fun.(*ast.FuncLit); ok { // func(){...}() runs here
 		sub := &fstate{f: st.f, depth: st.depth}
@@ -241,6 +293,9 @@ func (c *lctx) defName(f *lfunc, depth int) string {
 }
 
 func (c *lctx) baseName(f *lfunc) string {
+	if f.base != "" {
+		return f.base
+	}
 	n := strings.NewReplacer("/", "_", ".", "_", "::", "__", "-", "_").Replace(strings.TrimPrefix(f.pkg, "pkg/") + "::" + f.name)
 	var sb strings.Builder
 	for _, r := range n {
@@ -419,86 +474,72 @@ func (c *lctx) stmt(st *fstate, s ast.Stmt) string {
 }
 
 func runLockTrace(repo string, spec lockSpec, out string) {
-	c := &lctx{funcs: map[string]*lfunc{}, byName: map[string][]*lfunc{}, globals: map[string]map[string]bool{},
-		imports: map[*ast.File]map[string]string{}, pkgPath: map[string]string{}, objs: map[string]int{}}
+	c := &lctx{byObj: map[*types.Func]*lfunc{}, objs: map[string]int{}}
 	if spec.Depth == 0 {
 		spec.Depth = 4
 	}
-	fset := token.NewFileSet()
-	for _, dir := range spec.Packages {
-		c.pkgPath["/"+dir] = dir
-		c.globals[dir] = map[string]bool{}
-		pkgs, err := parser.ParseDir(fset, filepath.Join(repo, dir), func(fi os.FileInfo) bool {
-			return !strings.HasSuffix(fi.Name(), "_test.go")
-		}, 0)
-		if err != nil {
-			fail("%v", err)
+	var pats []string
+	for _, d := range spec.Packages {
+		pats = append(pats, "./"+d)
+	}
+	cfg := &packages.Config{
+		Mode: packages.NeedName | packages.NeedFiles | packages.NeedSyntax | packages.NeedTypes | packages.NeedTypesInfo | packages.NeedImports | packages.NeedDeps,
+		Dir:  repo,
+		Env:  append(os.Environ(), "GOFLAGS=-mod=mod", "GOPROXY=off", "GOSUMDB=off", "GOTOOLCHAIN=local"),
+	}
+	pkgs, err := packages.Load(cfg, pats...)
+	if err != nil {
+		fail("loading packages: %v", err)
+	}
+	sort.Slice(pkgs, func(i, j int) bool { return pkgs[i].PkgPath < pkgs[j].PkgPath })
+	for _, p := range pkgs {
+		if len(p.Errors) > 0 {
+			fail("package %s does not type-check: %v", p.PkgPath, p.Errors[0])
 		}
-		for _, p := range pkgs {
-			var names []string
-			for n := range p.Files {
-				names = append(names, n)
-			}
-			sort.Strings(names)
-			for _, n := range names {
-				f := p.Files[n]
-				im := map[string]string{}
-				for _, is := range f.Imports {
-					path := strings.Trim(is.Path.Value, `"`)
-					name := path[strings.LastIndex(path, "/")+1:]
-					if is.Name != nil {
-						name = is.Name.Name
-					}
-					im[name] = path
+		dir := p.PkgPath
+		if i := strings.Index(dir, "/pkg/"); i >= 0 {
+			dir = dir[i+1:]
+		}
+		for _, f := range p.Syntax {
+			for _, d := range f.Decls {
+				g, ok := d.(*ast.FuncDecl)
+				if !ok || g.Body == nil {
+					continue
 				}
-				c.imports[f] = im
-				for _, d := range f.Decls {
-					switch g := d.(type) {
-					case *ast.GenDecl:
-						if g.Tok == token.VAR {
-							for _, sp := range g.Specs {
-								for _, nm := range sp.(*ast.ValueSpec).Names {
-									c.globals[dir][nm.Name] = true
-								}
-							}
-						}
-					case *ast.FuncDecl:
-						name := g.Name.Name
-						if g.Recv != nil && len(g.Recv.List) == 1 {
-							name = typeName(g.Recv.List[0].Type) + "." + name
-						}
-						lf := &lfunc{pkg: dir, name: name, decl: g, file: f}
-						c.funcs[dir+"::"+name] = lf
-						if g.Recv == nil {
-							c.funcs[dir+"::"+g.Name.Name] = lf
-						}
-						c.byName[g.Name.Name] = append(c.byName[g.Name.Name], lf)
-					}
+				obj, _ := p.TypesInfo.Defs[g.Name].(*types.Func)
+				if obj == nil {
+					continue
 				}
+				name := g.Name.Name
+				if g.Recv != nil && len(g.Recv.List) == 1 {
+					name = typeName(g.Recv.List[0].Type) + "." + name
+				}
+				lf := &lfunc{pkg: dir, name: name, decl: g, info: p.TypesInfo, obj: obj}
+				c.byObj[obj] = lf
+				c.list = append(c.list, lf)
 			}
 		}
 	}
-	var keys []string
-	seen := map[*lfunc]bool{}
-	for k, f := range c.funcs {
-		if !seen[f] && f.decl.Body != nil {
-			seen[f] = true
-			keys = append(keys, k)
+	sort.Slice(c.list, func(i, j int) bool {
+		if c.list[i].pkg != c.list[j].pkg {
+			return c.list[i].pkg < c.list[j].pkg
 		}
-	}
-	sort.Strings(keys)
+		return c.list[i].name < c.list[j].name
+	})
 	var sb strings.Builder
 	sb.WriteString("(* GENERATED by gotrans (locktrace) from " + repo + " on every run. Do not edit, do not commit. *)\n")
 	sb.WriteString("From Coq Require Import NArith List String.\nFrom SigM Require Import LockTrace.\nImport ListNotations.\nOpen Scope N_scope.\nOpen Scope string_scope.\n\n")
 	type ent struct{ name, def string }
 	// one definition per function and depth; depth 0 cuts every call
-	var funcsList []*lfunc
-	for _, k := range keys {
-		f := c.funcs[k]
-		if f.decl.Recv == nil && k != f.pkg+"::"+f.name {
-			continue
+	funcsList := c.list
+	used := map[string]int{}
+	for _, f := range funcsList {
+		b := c.baseName(f)
+		used[b]++
+		if used[b] > 1 {
+			b = fmt.Sprintf("%s_v%d", b, used[b])
 		}
-		funcsList = append(funcsList, f)
+		f.base = b
 	}
 	defs := map[string]string{}
 	var order []string
